@@ -347,7 +347,7 @@ def narrow_pty_leg(run):
 def main(tier, seed, replay=None):
     run = Run(PROP, tier, seed, "proof")
     rng = random.Random(seed)
-    info, problems = proof_gate_multi([PROP, "C20Shape", "C20Frame"], thorough=(tier == "thorough"))
+    info, problems = proof_gate_multi([PROP, "C20Shape", "C20Frame", "C20Width"], thorough=(tier == "thorough"))
     for p in problems:
         run.tie("proof gate", p)
     drv = build_driver()
@@ -483,6 +483,23 @@ def main(tier, seed, replay=None):
         stats.update(fancy_leg(run, rng, tier, har, drv, rp_f))
     npty = (pty_leg(run, tier) + pty_resize_leg(run) + narrow_pty_leg(run)) if not replay else 0
     stats["pty_runs"] = npty
+    # terminal::get_cols on real ptys of every width class (and on a descriptor that is no terminal) against Model/Terminal.v
+    cl = ["fail"] + [str(c) for c in list(range(0, 40)) + [79, 80, 81, 120, 255, 256, 1000, 32767, 32768, 65535]]
+    if tier == "thorough":
+        cl += [str(c) for c in range(40, 2000)]
+    impl_c, model_c, bad_c = differential(run, "terminal::get_cols / the width print_progress uses", har, drv, "cols", "cols", cl)
+    for l, r in zip(cl, impl_c):
+        if r == "nopty":
+            continue
+        if not r.startswith(("some ", "none ")):
+            run.report_failure(None, "asking the terminal width did not return: %s" % r[:120], {"suite": "cols", "case": l})
+        elif int(r.split()[-1]) < 10:
+            run.report_failure(None, "a terminal reporting %s columns makes n2 render for %s columns (fewer than the 10 it accepts)" % (l, r.split()[-1]),
+                               {"suite": "cols", "case": l, "result": r})
+        elif l != "fail" and int(l) >= 10 and int(r.split()[-1]) != int(l):
+            run.report_failure(None, "a terminal %s columns wide is rendered for %s columns" % (l, r.split()[-1]), {"suite": "cols", "case": l, "result": r})
+    stats["terminal_width_cases"] = len(cl)
+    stats["terminal_width_disagreements"] = len(bad_c)
     run.coverage.update(info)
     run.coverage.update({
         "checker_cmd": "make -C coq theories/Props/C20.vo && coqc Gate_C20.v (Check pinned statements + Print Assumptions)",
